@@ -2,7 +2,7 @@
    From C10 (Proofs/TimingProofs2.v): in the tempo domain of SMWriteDom, TimingMap.beats of the chart's tempo rows at
    on-grid times succeeds, the beat of a time o is spec_beat o (the integral of bpm/60000, in lowest terms), it is the
    cumulative beat 4*measure + beat of a normalised position whose integrated time is o, and beats are monotone in time.
-   The tempo script the reference semantics re-derives from the written #BPMS pairs (two-decimal beats, exact bpms,
+   The tempo script the reference semantics re-derives from the written #BPMS pairs (six-decimal beats, exact bpms,
    sorted by beat) agrees with the script of the rows, hence beat_time of a written beat is the object's time. *)
 From Coq Require Import String ZArith QArith Qround Qabs List Bool Lia Lqa Sorting.Permutation.
 From RV Require Import Base.PyNum Timing.Snapper Timing.Snap Timing.TimingMap Timing.Reseat Timing.Integrate
@@ -160,7 +160,7 @@ Section Tempo.
     /\ from_bcs init l = Some SB
     /\ dom_beats_posb tbl 0 init l (map bs_snap l) (map bo_off SB) = true
     /\ distinct_q (map (fun x => abs_beat (bs_snap x)) l) = true
-    /\ forallb (fun x => is_hundredth (abs_beat (bs_snap x))) l = true
+    /\ forallb (fun x => is_millionth (abs_beat (bs_snap x))) l = true
     /\ forallb (fun r : Q * Q * Q => time_okb cf init l (fst (fst r))) rows = true.
   Proof.
     pose proof Hdom as H. unfold tempo_domb in H. fold tbl B SB in H.
@@ -353,21 +353,21 @@ Section Tempo.
       pose proof (Hmono _ _ I' I G) as L. rewrite !spec_beat_K in L. lra.
   Qed.
 
-  Lemma is_hundredth_comp a b : a == b -> is_hundredth a = is_hundredth b.
+  Lemma is_millionth_comp a b : a == b -> is_millionth a = is_millionth b.
   Proof.
-    intro E. unfold is_hundredth. assert (E1: a * 100 == b * 100) by (rewrite E; reflexivity).
-    rewrite (Qfloor_comp _ _ E1). destruct (Qeq_bool (b * 100) _) eqn:H.
+    intro E. unfold is_millionth. assert (E1: a * 1000000 == b * 1000000) by (rewrite E; reflexivity).
+    rewrite (Qfloor_comp _ _ E1). destruct (Qeq_bool (b * 1000000) _) eqn:H.
     - apply Qeq_bool_iff. apply Qeq_bool_iff in H. rewrite E1. exact H.
-    - destruct (Qeq_bool (a * 100) _) eqn:H2; [|reflexivity]. apply Qeq_bool_iff in H2. rewrite E1 in H2. apply Qeq_bool_iff in H2. congruence.
+    - destruct (Qeq_bool (a * 1000000) _) eqn:H2; [|reflexivity]. apply Qeq_bool_iff in H2. rewrite E1 in H2. apply Qeq_bool_iff in H2. congruence.
   Qed.
-  Lemma hundredth_eq' x q : is_hundredth x = true -> is_hundredth q = true -> Qabs (x - q) <= 1 # 200 -> x == q.
+  Lemma millionth_eq' x q : is_millionth x = true -> is_millionth q = true -> Qabs (x - q) <= 1 # 2000000 -> x == q.
   Proof.
-    unfold is_hundredth. intros Hx Hq Hd. apply Qeq_bool_iff in Hx, Hq.
-    set (a := Qfloor (x * 100)) in *. set (b := Qfloor (q * 100)) in *.
+    unfold is_millionth. intros Hx Hq Hd. apply Qeq_bool_iff in Hx, Hq.
+    set (a := Qfloor (x * 1000000)) in *. set (b := Qfloor (q * 1000000)) in *.
     assert (Hab: a = b).
     { assert (L: Qabs (inject_Z a - inject_Z b) <= 1 # 2).
-      { rewrite <- Hx, <- Hq. setoid_replace (x * 100 - q * 100) with ((x - q) * 100) by ring.
-        rewrite Qabs_Qmult. change (Qabs 100) with 100. lra. }
+      { rewrite <- Hx, <- Hq. setoid_replace (x * 1000000 - q * 1000000) with ((x - q) * 1000000) by ring.
+        rewrite Qabs_Qmult. change (Qabs 1000000) with 1000000. lra. }
       rewrite <- inject_Z_minus in L. apply Qabs_Qle_condition in L. destruct L as [L1 L2].
       assert (L1': (-1 < a - b)%Z). { rewrite Zlt_Qlt. change (inject_Z (-1)) with (-1). lra. }
       assert (L2': (a - b < 1)%Z). { rewrite Zlt_Qlt. change (inject_Z 1) with 1. lra. }
@@ -375,11 +375,11 @@ Section Tempo.
     rewrite Hab in Hx. lra.
   Qed.
 
-  Lemma row_beat_hundredth r : In r rows -> is_hundredth (spec_beat init l (fst (fst r))) = true.
+  Lemma row_beat_millionth r : In r rows -> is_millionth (spec_beat init l (fst (fst r))) = true.
   Proof.
     intro Hr. destruct tdom_parts as (_ & _ & _ & _ & _ & _ & _ & _ & D9 & _).
     destruct (forall2_in_l _ _ _ _ sorted_beats (row_in_SB r Hr)) as [c [Hc [Hk _]]]. cbn [bo_off] in Hk.
-    rewrite (is_hundredth_comp _ (abs_beat (bs_snap c))); [|rewrite spec_beat_K; exact Hk].
+    rewrite (is_millionth_comp _ (abs_beat (bs_snap c))); [|rewrite spec_beat_K; exact Hk].
     rewrite forallb_forall in D9. apply D9. exact Hc.
   Qed.
 
@@ -415,11 +415,11 @@ Section Tempo.
 
   Theorem written_script (pairs : list (Q * Q)) :
     Forall2 (fun (p : Q * Q) (r : Q * Q * Q) =>
-               is_hundredth (fst p) = true /\ Qabs (fst p - spec_beat init l (fst (fst r))) <= 1 # 200 /\ snd p == snd (fst r)) pairs rows ->
+               is_millionth (fst p) = true /\ Qabs (fst p - spec_beat init l (fst (fst r))) <= 1 # 2000000 /\ snd p == snd (fst r)) pairs rows ->
     Forall2 bcs_eqv (tempo_script pairs) l /\ forallb (fun p : Q * Q => Qlt_bool 0 (snd p)) pairs = true.
   Proof.
     intro Hp. destruct tdom_parts as (_ & _ & _ & _ & D5 & _).
-    assert (Hin: Forall2 (fun p r => In r rows /\ is_hundredth (fst p) = true /\ Qabs (fst p - spec_beat init l (fst (fst r))) <= 1 # 200 /\ snd p == snd (fst r)) pairs rows).
+    assert (Hin: Forall2 (fun p r => In r rows /\ is_millionth (fst p) = true /\ Qabs (fst p - spec_beat init l (fst (fst r))) <= 1 # 2000000 /\ snd p == snd (fst r)) pairs rows).
     { clear - Hp. induction Hp as [|p r pairs rows H _ IH]; constructor; [split; [left; reflexivity|exact H]|].
       apply (forall2_impl _ _ _ _ (fun a b G => conj (or_intror (proj1 G)) (proj2 G)) IH). }
     split.
@@ -427,7 +427,7 @@ Section Tempo.
       assert (R1: Forall2 Rel pairs B).
       { unfold B, bcos_of. apply forall2_map_r. refine (forall2_impl _ _ _ _ _ Hin). intros p r [Hr [H1 [H2 H3]]].
         unfold Rel. cbn [bo_off bo_bpm]. split; [|exact H3]. rewrite <- spec_beat_K.
-        apply hundredth_eq'; [exact H1|apply row_beat_hundredth; exact Hr|exact H2]. }
+        apply millionth_eq'; [exact H1|apply row_beat_millionth; exact Hr|exact H2]. }
       assert (R2: Forall2 Rel (sort_by pair_lt pairs) SB).
       { apply sort_by_rel; [exact R1|]. intros p b p' b' Hb Hb' [E1 _] [E1' _]. unfold pair_lt, bco_lt.
         rewrite <- (K_lt b b' Hb Hb').
@@ -502,3 +502,22 @@ Section Tempo.
     apply andb_true_iff. split; [apply Qeq_bool_iff; rewrite S2; exact Hb0|apply Z.eqb_eq; rewrite S1; exact Hm0].
   Qed.
 End Tempo.
+
+(* ---------------------------------------------------------------- the spec beat respects equality of times *)
+Lemma Qle_bool_comp_r a x y : x == y -> Qle_bool a x = Qle_bool a y.
+Proof.
+  intro E. destruct (Qle_bool a x) eqn:H.
+  - symmetry. apply Qle_bool_iff. apply Qle_bool_iff in H. rewrite <- E. exact H.
+  - destruct (Qle_bool a y) eqn:H2; [|reflexivity]. apply Qle_bool_iff in H2. rewrite <- E in H2. apply Qle_bool_iff in H2. congruence.
+Qed.
+Lemma beats_at_go_comp rest : forall acc cur o o', o == o' -> beats_at_go acc cur rest o == beats_at_go acc cur rest o'.
+Proof.
+  induction rest as [|n rest IH]; intros acc cur o o' E; cbn [beats_at_go].
+  - rewrite E. reflexivity.
+  - rewrite (Qle_bool_comp_r (fst n) o o' E). destruct (Qle_bool (fst n) o'); [apply IH; exact E|rewrite E; reflexivity].
+Qed.
+Lemma spec_beat_comp init l o o' : o == o' -> spec_beat init l o = spec_beat init l o'.
+Proof.
+  intro E. unfold spec_beat. apply Qred_complete. unfold beats_at. destruct (combine (change_times init l) l) as [|c rest]; [reflexivity|].
+  apply beats_at_go_comp. exact E.
+Qed.
